@@ -86,3 +86,11 @@ package edns
 //@   # both strips run on EVERY reply that carries an OPT, whatever the client asked for
 //@   assert at call (middleware.ResponseWriter).WriteMsg#1: !old(w.noedns) ==> calls("middleware/edns.stripECS") == 1 && calls("middleware/edns.stripKeepalive") == 1
 //@   assert at call (middleware.ResponseWriter).WriteMsg#1: w.noedns ==> forall i int :: {arg1.Extra[i]} 0 <= i && i < len(arg1.Extra) ==> !dyntype(arg1.Extra[i], *dns.OPT)
+//@
+//@ # ---- C19: a configuration ecs.Build rejects yields NO policy (forwarding off), never a permissive one
+//@ func buildECSPolicy
+//@   abstract
+//@   nosafety all pre
+//@   assert at return#1: result == nil && lastret("internal/ecs.Build", 1) != nil
+//@   assert at return#2: result == lastret("internal/ecs.Build") && lastret("internal/ecs.Build", 1) == nil
+//@   assert at call internal/ecs.Build#1: arg0 == cfg.ECS.Enabled && arg1 == cfg.ECS.ForwardV4Max && arg2 == cfg.ECS.ForwardV6Max && arg3 == cfg.ECS.MinScopeV4 && arg4 == cfg.ECS.MinScopeV6 && arg5 == cfg.ECS.ClientNetworks
